@@ -51,6 +51,20 @@ let () =
                     (match o.Reloc.o_rewrite with None -> "-" | Some (x, y) -> string_of_cz x ^ ":" ^ string_of_cz y)
                     (match o.Reloc.o_slot with None -> "-" | Some x -> string_of_cz x))) r.Reloc.rr_outs;
                 print_endline (Buffer.contents b))
+           | ["MEAN"; mode; cls; modrm; imm; addr; hex] ->
+             (* run-time meaning of the bytes at a site through C01's proven structural decoder (Verif.X86.X86Model.sdec) *)
+             let m = if mode = "64" then Reloc.M64 else Reloc.M32 in
+             let rec nat_of_int i = if i <= 0 then Reloc.O else Reloc.S (nat_of_int (i - 1)) in
+             let sh = { Reloc.sh_modrm = (modrm = "1"); sh_vsib = false; sh_imm = nat_of_int (int_of_string imm); sh_n = cz_of_int 1 } in
+             let n = String.length hex / 2 in
+             let bs = List.init n (fun i -> cz_of_int (int_of_string ("0x" ^ String.sub hex (2 * i) 2))) in
+             let r = (match cls with
+                      | "mem" -> Reloc.site_target m Reloc.CMem sh (cz_of_string addr) bs
+                      | "branch" -> Reloc.site_target m Reloc.CBranch sh (cz_of_string addr) bs
+                      | "moffs" -> Reloc.site_target m Reloc.CMoffs sh (cz_of_string addr) bs
+                      | "branch8" -> Reloc.branch8_target m sh (cz_of_string addr) bs
+                      | _ -> None) in
+             print_endline (match r with Some t -> string_of_cz t | None -> "none")
            | ["KNOWN"; abits; base; next; target] ->
              (* the relative field the assembler emits at once when the base is known at init *)
              print_endline (match Reloc.known_rel32 (cz_of_string abits) (cz_of_string base) (cz_of_string next) (cz_of_string target) with
